@@ -100,7 +100,7 @@ class C16(Check):
         "a decimal written with more digits than the precision only because of trailing zeros (1.2300 for precision 3) may be refused or stored; both are accepted",
     ]
     required_labels = ["enum:date", "enum:time-millis", "enum:time-micros", "gen:timestamp-aware", "gen:timestamp-naive", "gen:local-timestamp", "gen:uuid",
-                       "dec:fixed", "dec:bytes", "dec:must-raise", "dec:negative", "dec:negative-zero", "dec:positive-exponent", "dec:roundtrip", "pre-epoch", "offset:nonzero", "wrapped:record", "wrapped:array", "wrapped:union", "wrapped:map", "dec:sign-extended-read", "paths:container+validate+json"]
+                       "dec:fixed", "dec:bytes", "dec:must-raise", "dec:negative", "dec:negative-zero", "dec:positive-exponent", "dec:roundtrip", "pre-epoch", "offset:nonzero", "wrapped:record", "wrapped:array", "wrapped:union", "wrapped:map", "dec:sign-extended-read", "paths:container+validate+json", "dec:scale-omitted"]
     quick = (2500, 4)
     thorough = (20000, 16)
     exhaustive = False
@@ -422,6 +422,9 @@ class C16(Check):
         prec, scale, size, under, v = case["precision"], case["scale"], case["size"], case["under"], case["value"]
         labels = {"dec:" + under}
         js = {"type": under, "logicalType": "decimal", "precision": prec, "scale": scale}
+        if scale == 0 and prec % 2 == 0:
+            del js["scale"]  # the attribute is optional and defaults to 0
+            labels.add("dec:scale-omitted")
         if under == "fixed":
             js.update(name="DecF", size=size)
         schema = guard("parse-valid-schema", fastavro.parse_schema, js)
